@@ -27,6 +27,7 @@ pub struct Norm<'a> {
     pub return_no: usize,
     pub forpat_no: usize,
     pub tmp_no: usize,
+    pub split_no: usize,
     pub call_no: BTreeMap<String, usize>,
     pub let_no: BTreeMap<String, usize>,
     pub hoisted: Vec<Stmt>,
@@ -46,7 +47,7 @@ impl<'a> Norm<'a> {
     pub fn new(spec: &'a FnSpec, unit: &'a Unit, canary: bool, fname: &str) -> Self {
         Norm {
             spec, unit, canary, fname: fname.to_string(),
-            loop_no: 0, closure_no: 0, if_no: 0, match_no: 0, assert_no: 0, return_no: 0, forpat_no: 0, tmp_no: 0,
+            loop_no: 0, closure_no: 0, if_no: 0, match_no: 0, assert_no: 0, return_no: 0, forpat_no: 0, tmp_no: 0, split_no: 0,
             call_no: Default::default(), let_no: Default::default(), hoisted: vec![], log: Default::default(),
             raws: vec![], used_anchors: Default::default(), avail_anchors: Default::default(), errors: vec![],
             closure_depth: 0, canaries: vec![],
@@ -335,6 +336,20 @@ impl<'a> Norm<'a> {
         }
     }
 
+    fn letsplit_expr(&mut self, e: &mut Expr, pre: &mut Vec<Stmt>) {
+        if let Expr::MethodCall(mc) = e {
+            if self.spec.letsplit.contains(&mc.method.to_string()) && matches!(&*mc.receiver, Expr::MethodCall(_) | Expr::Call(_)) {
+                self.letsplit_expr(&mut mc.receiver, pre);
+                self.split_no += 1;
+                let t = Ident::new(&format!("__vx_t{}", self.split_no), Span::call_site());
+                let r = &mc.receiver;
+                pre.push(parse_quote!(let mut #t = #r;));
+                mc.receiver = Box::new(parse_quote!(#t));
+                self.bump("R-LETSPLIT");
+            }
+        }
+    }
+
     /// root `R.peek_mut()` of a method chain: rename to `peek`, return R
     fn peek_mut_root(e: &mut Expr) -> Option<Expr> {
         if let Expr::MethodCall(mc) = e {
@@ -459,7 +474,22 @@ impl<'a> VisitMut for Norm<'a> {
     }
 
     fn visit_block_mut(&mut self, b: &mut Block) {
-        let old = std::mem::take(&mut b.stmts);
+        let mut old = std::mem::take(&mut b.stmts);
+        // R-LETSPLIT (@letsplit m1 m2): in a `let` initialiser, the receiver chain of `.m(..)` is bound by `let mut __vx_tK = RECV;`
+        if !self.spec.letsplit.is_empty() {
+            let mut out: Vec<Stmt> = vec![];
+            for mut st in old {
+                if let Stmt::Local(l) = &mut st {
+                    if let Some(init) = &mut l.init {
+                        let mut pre: Vec<Stmt> = vec![];
+                        self.letsplit_expr(&mut init.expr, &mut pre);
+                        out.extend(pre);
+                    }
+                }
+                out.push(st);
+            }
+            old = out;
+        }
         for mut s in old {
             // pre-anchors
             let mut before: Vec<Stmt> = vec![];
